@@ -1,6 +1,7 @@
 import SJ.Props.C01
 import SJ.Props.C01Iff
 import SJ.Props.C01Ap
+import SJ.Props.C01Rv
 #print axioms SJ.Props.C01.c01_complete_value
 #print axioms SJ.Props.C01.c01_complete_sideConditions
 #print axioms SJ.Props.C01.c01_complete_value_ap
@@ -26,3 +27,17 @@ import SJ.Props.C01Ap
 #print axioms SJ.Props.C01Ap.c01_ap_sound
 #print axioms SJ.Props.C01Ap.c01_ap_accepts_iff
 #print axioms SJ.Props.C01Ap.c01_ap_accepts_iff_run
+#print axioms SJ.Props.C01Rv.c01_rv_recursion
+#print axioms SJ.Props.C01Rv.c01_rv_fuel_irrelevant
+#print axioms SJ.Props.C01Rv.c01_rv_off
+#print axioms SJ.Props.C01Rv.c01_rv_conservative
+#print axioms SJ.Props.C01Rv.c01_rv_conservative_machine
+#print axioms SJ.Props.C01Rv.c01_rv_conservative_machine_noap
+#print axioms SJ.Props.C01Rv.c01_rv_accepts_iff_tokenfree
+#print axioms SJ.Props.C01Rv.c01_rv_token_object
+#print axioms SJ.Props.C01Rv.c01_rv_token_language
+#print axioms SJ.Props.C01Rv.c01_rv_token_value_not_string
+#print axioms SJ.Props.C01Rv.c01_rv_token_nested_error
+#print axioms SJ.Props.C01Rv.c01_rv_token_extra_member
+#print axioms SJ.Props.C01Rv.c01_rv_token_eof
+#print axioms SJ.Props.C01Rv.c01_rv_sound
